@@ -70,6 +70,7 @@ def run(chk):
     rule_strslice(chk, reach)
     rule_locations_total(chk)
     rule_layout_total(chk)
+    rule_include_depth(chk)
     rule_admitted_kinds(chk)
     rule_elab_total(chk)
     rule_scope_walk(chk)
@@ -735,6 +736,35 @@ def rule_layout_total(chk):
                 chk.unreadable("C08.layout/no-abort", "check_layout on the layout model", r[1][:100], where(m.cl))
                 return
     chk.ob("C08.layout/no-abort", bad is None, bad or "%d evaluations on degenerate element types: no abort" % n, where(m.cl), sample={"evaluations": n})
+
+
+def rule_include_depth(chk):
+    """#include nesting is bounded: the include directive is evaluated (c12.DirectiveModel) with a file loader that is
+    already a million files deep - it must refuse instead of opening another file (a file that includes itself would
+    otherwise recurse until the stack runs out) - and at depth 0, where the included file must see the depth raised and
+    the caller must find it restored afterwards."""
+    import c12
+    dm = c12.DirectiveModel(chk.facts)
+    if not dm.pc:
+        return
+    inc = dm.words("include", '"a.h"')
+    deep = dm.run(inc, [], [], True, include_depth=1000000)
+    flat = dm.run(inc, [], [], True, include_depth=0)
+    if deep[0] == "unreadable" or flat[0] == "unreadable":
+        chk.unreadable("C08.include/bounded", "the include directive on the directive model", (deep if deep[0] == "unreadable" else flat)[1], where(dm.pc))
+        return
+    bad = None
+    if deep[0] == "aborts" or flat[0] == "aborts":
+        bad = "the include directive aborts (%s)" % ((deep if deep[0] == "aborts" else flat)[1])
+    elif not deep[0].startswith("Err") or any(e[0] == "included" for e in deep[3]):
+        bad = "a million files deep, `#include` still opens the next file (result %s): nothing bounds the nesting, so a file that includes itself recurses until the stack overflows" % deep[0]
+    elif flat[0] != "Ok" or not any(e[0] == "included" for e in flat[3]):
+        bad = "at nesting depth 0 `#include` gives %s without processing the file" % flat[0]
+    else:
+        seen = [e[1] for e in flat[3] if e[0] == "included"]
+        if seen and isinstance(seen[0], int) and seen[0] != 1:
+            bad = "the included file is processed with nesting depth %s recorded, must be 1" % seen[0]
+    chk.ob("C08.include/bounded", bad is None, bad or "refused when too deep; depth raised while the included file is processed", where(dm.pc))
 
 
 def rule_strslice(chk, reach):
